@@ -86,3 +86,10 @@ func (l *LLk) Consume(tt lexer.TokenType) bool {
 	appendNextToken(l)
 	return true
 }
+
+// drain consumes the tokens that are still pending so the lexer goroutine
+// feeding the channel can run to completion.
+func (l *LLk) drain() {
+	for range l.c {
+	}
+}
